@@ -312,7 +312,8 @@ fn exec(out: &mut Out, world: &mut World, line: &str, rtm: &tokio::runtime::Runt
                             for _ in 0..40 {
                                 let n = m.serialized_len() + m.is_error() as usize + m.error_code().is_some() as usize + m.query_utf8().len() + m.body_utf8().len()
                                     + m.query_str().is_ok() as usize + m.error_message_utf8().map(|x| x.len()).unwrap_or(0) + format!("{:?}", m.header).len()
-                                    + (m.header == m.header.clone()) as usize + m.header.encode().len();
+                                    + (m.header == m.header.clone()) as usize + m.header.encode().len()
+                                    + MessageView { header: m.header, query: &m.query, body: &m.body }.query_str().is_ok() as usize;
                                 seen.fetch_add(n as u64, std::sync::atomic::Ordering::Relaxed);
                             }
                         });
@@ -497,6 +498,28 @@ fn exec(out: &mut Out, world: &mut World, line: &str, rtm: &tokio::runtime::Runt
             }
             out.count("wire.build");
             (format!("{} {}", idx, hex(&v)), true)
+        }
+        "bodyfmt" => {
+            // bodyfmt <idx> <which: utf8|json|beve> <id> <query> <json value> <expected body, serialised by the harness>:
+            // the builder's serialising body setters set body AND format code (Utf8 3 / Json 2 / Beve 1)
+            let ops = vec![line.to_string()];
+            let which = w[2];
+            let id: u64 = w[3].parse().unwrap();
+            let q = unhex(w[4]).unwrap();
+            let value: serde_json::Value = serde_json::from_str(&String::from_utf8(unhex(w[5]).unwrap()).unwrap()).unwrap();
+            let body = unhex(w[6]).unwrap();
+            let bld = Message::builder().id(id).query_format_code(1).query_bytes(q.clone());
+            let (m, bf) = match which {
+                "utf8" => (bld.body_utf8(std::str::from_utf8(&body).expect("utf8 body")).build(), 3u16),
+                "json" => (bld.body_json(&value).expect("json").build(), 2),
+                _ => (bld.body_beve(&value).expect("beve").build(), 1),
+            };
+            let want = RawFrame::request(id, false, 1, &q, bf, &body).to_vec();
+            if m.to_vec() != want {
+                out.oracle_fail(&format!("wire.bodyfmt.{}", which), "builder body setter: the frame is not header(format code of the setter) + query + the serialised value", &ops);
+            }
+            out.count(&format!("wire.bodyfmt.{}", which));
+            (format!("{} {}", idx, hex(&m.to_vec())), true)
         }
         "sink" => {
             // everything the persistent sinks received since the last `sink`: exactly the frames, in order
@@ -1062,6 +1085,9 @@ fn gen_aux(r: &mut Rng, ops: &mut Vec<String>, i: usize, h: &RawHeader, q: &[u8]
     };
     let rqf = *r.pick(&[0u16, 1, 1, 2, 4095, 65535]);
     ops.push(format!("resp {}r {} {} {} {} {} {}", i, r.boundary(64), rqf, hex(&gen_query(r)), bf, hex(&body), hex(serde_json::to_string(&value).unwrap().as_bytes())));
+    let which = *r.pick(&["utf8", "json", "beve"]);
+    let fbody = match which { "utf8" => gen_text(r).into_bytes(), "json" => serde_json::to_vec(&value).unwrap(), _ => beve::to_vec(&value).unwrap() };
+    ops.push(format!("bodyfmt {}f {} {} {} {} {}", i, which, r.boundary(64), hex(&gen_query(r)), hex(serde_json::to_string(&value).unwrap().as_bytes()), hex(&fbody)));
     // documented twins: slice writers
     let kind = *r.pick(&["f64", "i32", "u8", "c32"]);
     let unit = match kind { "f64" | "c32" => 8, "i32" => 4, _ => 1 };
@@ -1212,6 +1238,16 @@ fn gen_parse_inputs(r: &mut Rng, n: usize) -> Vec<Vec<u8>> {
     v.push(f2.encode().to_vec());
     let f3 = RawHeader { length: 48u64.wrapping_add(1 << 63), spec: 0x1507, version: 1, body_length: 1 << 63, ..Default::default() };
     v.push(f3.encode().to_vec());
+    // class r: the "too long" classes have siblings that EXIST at that length — valid frames of 4 KiB, 8 KiB ± 1, 64 KiB ± 1
+    // (thorough: 1 MiB) through every entry point, whole and with one byte missing / one byte extra
+    for &total in if n > 10_000 { &[4096usize, 8191, 8192, 8193, 65535, 65536, 65537, 1 << 20][..] } else { &[4096usize, 8192, 8193, 65536][..] } {
+        let ql = *r.pick(&[0usize, 5, 300]);
+        let (q, b) = (r.bytes(ql), r.bytes(total - 48 - ql));
+        let f = RawFrame::request(r.next(), false, 1, &q, 2, &b).to_vec();
+        v.push(f.clone());
+        v.push(f[..f.len() - 1].to_vec());
+        let mut g = f; g.push(0); v.push(g);
+    }
     for i in 0..n {
         let valid = {
             let q = { let l = r.below(20) as usize; r.bytes(l) };
@@ -1661,9 +1697,16 @@ fn exec_net(out: &mut Out, w: &NetWorld, line: &str) -> (String, bool) {
                 let _ = s.shutdown(std::net::Shutdown::Write);
                 let _ = s.set_read_timeout(Some(t));
                 let mut sink = [0u8; 4096];
+                let mut said = Vec::new();
                 let t0 = std::time::Instant::now();
                 while t0.elapsed() < t {
-                    match s.read(&mut sink) { Ok(0) | Err(_) => break, Ok(_) => {} }
+                    match s.read(&mut sink) { Ok(0) | Err(_) => break, Ok(n) => said.extend_from_slice(&sink[..n]) }
+                }
+                // class u: whatever the server says on this (error) path is made of whole canonical frames (C01's clause on
+                // somebody else's path); which error it reports is not judged here
+                let (_, tail) = RawFrame::split_stream(&said);
+                if tail.len() >= 48 && !RawHeader::parse(&tail).map(|h| h.consistent()).unwrap_or(false) {
+                    out.oracle_fail(&format!("parse.net.{}.emitted_inconsistent_frame", ep), "bytes the server sent back on an error path are not a sequence of consistent frames", &[line.to_string()]);
                 }
             }
             // the server must still answer a fresh connection
@@ -1672,6 +1715,7 @@ fn exec_net(out: &mut Out, w: &NetWorld, line: &str) -> (String, bool) {
         "ws" => {
             let url = format!("ws://{}/repe", w.ws);
             let mut served_inexact = false;
+            let mut emitted_bad = false;
             alive = w.rt.block_on(async {
                 if let Ok((mut c, _)) = tokio_tungstenite::connect_async(&url).await {
                     if pre {
@@ -1681,6 +1725,8 @@ fn exec_net(out: &mut Out, w: &NetWorld, line: &str) -> (String, bool) {
                     let _ = c.send(WsMsg::Binary(bs.clone())).await;
                     let inexact = !matches!(RawFrame::parse_prefix(&bs), Some((_, n)) if n == bs.len());
                     if let Ok(Some(Ok(WsMsg::Binary(b)))) = tokio::time::timeout(t, c.next()).await {
+                        // class u: an error reply is itself exactly one consistent frame
+                        if !matches!(RawFrame::parse_prefix(&b), Some((_, n)) if n == b.len()) { emitted_bad = true; }
                         // a WebSocket message that is not exactly one consistent frame must not be answered as a request
                         if inexact && RawFrame::parse_prefix(&b).map(|(f, _)| f.h.ec == 0).unwrap_or(false) {
                             served_inexact = true;
@@ -1694,6 +1740,9 @@ fn exec_net(out: &mut Out, w: &NetWorld, line: &str) -> (String, bool) {
                     _ => false,
                 }
             });
+            if emitted_bad {
+                out.oracle_fail("parse.net.ws.emitted_inconsistent_frame", "the WebSocket server's reply on an error path is not exactly one consistent frame", &[line.to_string()]);
+            }
             if served_inexact {
                 out.oracle_fail("parse.net.ws.served_inexact_message", "the WebSocket server answered (ec 0) a binary message that is not exactly one consistent frame", &[line.to_string()]);
             }
@@ -2203,7 +2252,7 @@ const DRIVEN: &[(&str, &[&str])] = &[
     ("message.rs", &["new", "builder", "to_vec", "serialized_len", "write_to", "into_wire_bytes", "from_slice", "from_slice_exact", "is_error", "error_code",
         "error_message_utf8", "query_utf8", "query_str", "body_utf8", "to_message", "id", "notify", "query_format", "query_format_code", "body_format",
         "body_format_code", "query_bytes", "body_bytes", "body_json", "body_beve", "body_typed_slice", "body_complex_slice", "build",
-        "create_error_message", "create_error_response_like", "create_response"]),
+        "body_utf8", "create_error_message", "create_error_response_like", "create_response"]),
     ("io.rs", &["read_message", "read_message_into", "write_message", "write_message_streaming", "write_message_typed_slice", "write_message_complex_slice"]),
     ("async_io.rs", &["read_message_async", "read_message_into_async", "write_message_async"]),
 ];
